@@ -644,5 +644,164 @@ Proof.
   destruct (packets m) as [ps|e]; [left; exists ps; reflexivity|right; cbn [spec] in S; rewrite S; reflexivity].
 Qed.
 
+(* ------------------------------------------------------------------------------------------ *)
+(* 9. with no hypothesis at all: the exact list of exceptions packets() can return              *)
+
+Definition EL (e : exn) : Prop := In e [NamePartTooLong; UnicodeError; IndexError; StructError; ValueError; OtherError].
+Definition anyr {A} : A -> Prop := fun _ => True.
+
+Ltac el := cbn [spec]; unfold EL, anyr; cbn [In]; auto 10.
+
+Lemma write_byte_any st v : spec EL anyr (write_byte st v).
+Proof. unfold write_byte. destruct ((v <? 0) || (255 <? v)); el. Qed.
+Lemma write_short_any st v : spec EL anyr (write_short st v).
+Proof. unfold write_short. destruct ((v <? 0) || (65535 <? v)); el. Qed.
+Lemma write_int_any st v : spec EL anyr (write_int st v).
+Proof. unfold write_int. destruct ((v <? 0) || (4294967295 <? v)); el. Qed.
+
+Lemma utf8_encode_any s : spec EL anyr (utf8_encode s).
+Proof.
+  induction s as [|c s IH]; cbn [utf8_encode]; [el|]. destruct (is_surrogate c); [el|].
+  destruct (utf8_encode s) as [b|e]; [el|exact IH].
+Qed.
+
+Lemma utf8_len_any s : spec EL anyr (utf8_len s).
+Proof. unfold utf8_len. pose proof (utf8_encode_any s) as H. destruct (utf8_encode s); [el|exact H]. Qed.
+
+Lemma write_utf_any st l : spec EL anyr (write_utf st l).
+Proof.
+  unfold write_utf. apply (spec_bind EL anyr); [apply utf8_encode_any|]. intros u _.
+  destruct (write_utf_rejects (Z.of_nat (length u))); [el|].
+  apply (spec_bind EL anyr); [apply write_byte_any|]. intros st' _. el.
+Qed.
+
+Lemma write_character_string_any st b : spec EL anyr (write_character_string st b).
+Proof.
+  unfold write_character_string. destruct (256 <? Z.of_nat (length b)); [el|].
+  apply (spec_bind EL anyr); [apply write_byte_any|]. intros st' _. el.
+Qed.
+
+Lemma write_link_any st i : spec EL anyr (write_link st i).
+Proof. unfold write_link. apply (spec_bind EL anyr); [apply write_byte_any|]. intros st' _. apply write_byte_any. Qed.
+
+Lemma write_name_rest_any labels : forall st ss nl, spec EL anyr (write_name_rest st ss nl labels).
+Proof.
+  induction labels as [|l rest IH]; intros st ss nl; cbn [write_name_rest]; [apply write_byte_any|].
+  destruct (negb (names_get st (join_dot (l :: rest)) =? 0)); [apply write_link_any|].
+  apply (spec_bind EL anyr); [apply utf8_len_any|]. intros plen _.
+  apply (spec_bind EL anyr); [apply write_utf_any|]. intros st2 _. apply IH.
+Qed.
+
+Lemma write_name_any st n : spec EL anyr (write_name st n).
+Proof.
+  unfold write_name. destruct (negb (names_get st (strip_dot n) =? 0)); [apply write_link_any|].
+  destruct (split_dot (strip_dot n)) as [|l0 rest]; [el|].
+  apply (spec_bind EL anyr); [apply write_utf_any|]. intros st2 _.
+  destruct rest; [apply write_byte_any|].
+  apply (spec_bind EL anyr); [apply utf8_len_any|]. intros nlen _. apply write_name_rest_any.
+Qed.
+
+Lemma write_record_class_any mc st r : spec EL anyr (write_record_class mc st r).
+Proof. unfold write_record_class. destruct (DNSEntry_unique r && mc); apply write_short_any. Qed.
+
+Lemma nsec_bitmap_any types : forall bm tot, spec EL anyr (nsec_bitmap types bm tot).
+Proof.
+  induction types as [|t rest IH]; intros bm tot; cbn [nsec_bitmap]; [el|].
+  destruct (255 <? t); [el|]. destruct (t <? 0); [el|]. apply IH.
+Qed.
+
+Lemma write_rdata_any st r : spec EL anyr (write_rdata st r).
+Proof.
+  unfold write_rdata. destruct (p_kind r).
+  - el.
+  - el.
+  - apply (spec_bind EL anyr); [apply utf8_encode_any|]. intros cpu _.
+    apply (spec_bind EL anyr); [apply write_character_string_any|]. intros s1 _.
+    apply (spec_bind EL anyr); [apply utf8_encode_any|]. intros os _. apply write_character_string_any.
+  - apply write_name_any.
+  - el.
+  - apply (spec_bind EL anyr); [apply write_short_any|]. intros s1 _.
+    apply (spec_bind EL anyr); [apply write_short_any|]. intros s2 _.
+    apply (spec_bind EL anyr); [apply write_short_any|]. intros s3 _. apply write_name_any.
+  - apply (spec_bind EL anyr); [apply nsec_bitmap_any|]. intros [bm tot] _.
+    destruct (tot =? 0); [el|].
+    apply (spec_bind EL anyr); [apply write_name_any|]. intros s1 _.
+    apply (spec_bind EL anyr); [apply write_byte_any|]. intros s2 _.
+    apply (spec_bind EL anyr); [apply write_byte_any|]. intros s3 _. el.
+Qed.
+
+Lemma write_question_any mc st q : spec EL anyr (write_question mc st q).
+Proof.
+  unfold write_question. apply (spec_bind EL anyr); [apply write_name_any|]. intros s1 _.
+  apply (spec_bind EL anyr); [apply write_short_any|]. intros s2 _.
+  apply (spec_bind EL anyr); [apply write_record_class_any|]. intros s3 _. el.
+Qed.
+
+Lemma write_record_any mc st r now : spec EL anyr (write_record mc st r now).
+Proof.
+  unfold write_record. apply (spec_bind EL anyr); [apply write_name_any|]. intros s1 _.
+  apply (spec_bind EL anyr); [apply write_short_any|]. intros s2 _.
+  apply (spec_bind EL anyr); [apply write_record_class_any|]. intros s3 _.
+  apply (spec_bind EL anyr); [apply write_int_any|]. intros s4 _.
+  apply (spec_bind EL anyr); [apply write_short_any|]. intros s5 _.
+  apply (spec_bind EL anyr); [apply write_rdata_any|]. intros s6 _. cbv zeta.
+  destruct ((e_size s6 - e_size s5 <? 0) || (65535 <? e_size s6 - e_size s5)); el.
+Qed.
+
+Lemma write_questions_any mc qs : forall st n, spec EL anyr (write_questions mc st qs n).
+Proof.
+  induction qs as [|q rest IH]; intros st n; cbn [write_questions]; [el|].
+  apply (spec_bind EL anyr); [apply write_question_any|]. intros [st' fit] _. destruct fit; [apply IH|el].
+Qed.
+
+Lemma write_records_any mc rs : forall st n, spec EL anyr (write_records mc st rs n).
+Proof.
+  induction rs as [|[r now] rest IH]; intros st n; cbn [write_records]; [el|].
+  apply (spec_bind EL anyr); [apply write_record_any|]. intros [st' fit] _. destruct fit; [apply IH|el].
+Qed.
+
+Lemma packets_loop_any m : forall fuel qs ans auth adds acc, spec EL anyr (packets_loop fuel m qs ans auth adds acc).
+Proof.
+  induction fuel as [|fuel IH]; intros qs ans auth adds acc; cbn [packets_loop]; [el|]. cbv zeta.
+  apply (spec_bind EL anyr); [apply write_questions_any|]. intros [s1 nq] _.
+  apply (spec_bind EL anyr); [apply write_records_any|]. intros [s2 na] _.
+  apply (spec_bind EL anyr); [apply write_records_any|]. intros [s3 nau] _.
+  apply (spec_bind EL anyr); [apply write_records_any|]. intros [s4 nad] _.
+  match goal with |- spec _ _ (if ?c then _ else _) => destruct c end; [el|].
+  destruct (negb (nonempty (e_rev s4))); [el|].
+  match goal with |- spec _ _ (if ?c then _ else _) => destruct c end; [apply IH|el].
+Qed.
+
+(* whatever the message: packets() returns a list of datagrams or raises one of exactly these six classes *)
+Theorem packets_raises_only : forall m e, packets m = Raise e ->
+  In e [NamePartTooLong; UnicodeError; IndexError; StructError; ValueError; OtherError].
+Proof.
+  intros m e H. unfold packets, packets_info in H.
+  match type of H with match ?X with Ok _ => _ | Raise _ => _ end = _ =>
+    pose proof (packets_loop_any m _ (o_questions m) (o_answers m) (o_authorities m) (o_additionals m) [] : spec EL anyr X) as S;
+    destruct X as [ps|e0] end; [discriminate|]. inversion H; subst. exact S.
+Qed.
+
+(* ... and each of them does occur once a hypothesis of msg_encodable is dropped (so "the only exception is
+   NamePartTooLong" is false without the other side conditions) *)
+Definition ex_rec (k : kind) (name : text) (ttl : Z) (rdtypes : list Z) : pyrec :=
+  {| p_kind := k; p_name := name; p_type_ := 16; p_class_ := 1; p_ttl := ttl; p_created := 0; p_address := [];
+     p_scope_id := None; p_cpu := []; p_os := []; p_alias := []; p_text := []; p_priority := 0; p_weight := 0;
+     p_port := 0; p_server := []; p_next_name := [120; 46]; p_rdtypes := rdtypes |}.
+Definition ex_msg (r : pyrec) : out_msg :=
+  {| o_flags := 33792; o_multicast := true; o_id := 0; o_questions := []; o_answers := [(r, 0)];
+     o_authorities := []; o_additionals := [] |}.
+
+Example packets_exceptions :
+  (exists ps, packets (ex_msg (ex_rec KText [120; 46] 120 [])) = Ok ps) /\
+  packets (ex_msg (ex_rec KText (repeat 120 64 ++ [46]) 120 [])) = Raise NamePartTooLong /\
+  packets (ex_msg (ex_rec KText [55296; 46] 120 [])) = Raise UnicodeError /\
+  packets (ex_msg (ex_rec KText [120; 46] (-1) [])) = Raise StructError /\
+  packets (ex_msg (ex_rec KNsec [120; 46] 120 [])) = Raise ValueError /\
+  packets (ex_msg (ex_rec KNsec [120; 46] 120 [-1])) = Raise IndexError /\
+  packets (ex_msg (ex_rec KQuestion [120; 46] 120 [])) = Raise OtherError.
+Proof. vm_compute. repeat split; try reflexivity. eexists; reflexivity. Qed.
+
 Print Assumptions packets_encodable.
 Print Assumptions packets_soft.
+Print Assumptions packets_raises_only.
